@@ -6,6 +6,7 @@ binding pattern (fresh variable / alias of an earlier variable / integer constan
 [V|W] / [c,V]) vs the independent SLD interpreter vlib.refprolog."""
 from vlib import ch
 from vlib.sld import (V, A, C, F, L, NIL, call, conj, eq, neq, TRUE, FAIL, build_sld_unit, NMODES)
+from vlib import ch
 
 PROPERTY = 'C01'
 FUNCTIONS = ['generated clause functions of every skeleton (compiled by the current compiler at run time)',
@@ -68,15 +69,106 @@ def skeletons(nf):
     return S
 
 
+# ---- C01.b: clause heads (solver-enumerated patterns), compiled per path ------------------
+HEAD_PATTERNS = ['X', 'Y', '_', 'a', '1', 'f(X)', 'f(Y)', 'g(X,Y)', '[X|Y]']
+HEAD_REF = [V('X'), V('Y'), None, A('a'), C(1), F('f', V('X')), F('f', V('Y')), F('g', V('X'), V('Y')), L(V('X'), tail=V('Y'))]
+BODY_TEXT = ['true', 'd(X)', 'd(X), d(Y)', 'd(X), d(X)', '!, fail', 'd(Y), !']
+BODY_REF = [TRUE, call('d', V('X')), conj(call('d', V('X')), call('d', V('Y'))), conj(call('d', V('X')), call('d', V('X'))),
+            conj(('cut',), FAIL), conj(call('d', V('Y')), ('cut',))]
+
+
+def make_body_b(quick, info):
+    from crosshair.tracers import NoTracing
+    from vlib.control import _compile
+    from vlib.refprolog import Interp, StepLimit
+    from vlib.sld import QueryBuilder, ref_answers, real_answers
+    from vlib.terms import Cyclic
+    np_, nb = len(HEAD_PATTERNS), len(BODY_TEXT)
+    spec = [('p0', 'int', '0 <= p0 <= %d' % (np_ - 1)), ('p1', 'int', '0 <= p1 <= %d' % (np_ - 1)), ('b', 'int', '0 <= b <= %d' % (nb - 1)),
+            ('nd', 'int', '0 <= nd <= 2'), ('d0', 'int', None), ('d1', 'int', None),
+            ('m0', 'int', '0 <= m0 <= 5'), ('a0', 'int', None), ('m1', 'int', '0 <= m1 <= 5'), ('a1', 'int', None)]
+    ix = ch.index_of(spec)
+    cache = {}
+
+    def body(vals):
+        ch.install_registry(False)
+        g = lambda k: vals[ix[k]]
+        i0 = i1 = ib = 0
+        for k in range(np_):
+            if g('p0') == k:
+                i0 = k
+            if g('p1') == k:
+                i1 = k
+        for k in range(nb):
+            if g('b') == k:
+                ib = k
+        with NoTracing():
+            key = (i0, i1, ib)
+            if key not in cache:
+                src = 'r(%s, %s) :- %s.\nr(A, B) :- d(A), B = A.\n' % (HEAD_PATTERNS[i0], HEAD_PATTERNS[i1], BODY_TEXT[ib])
+                try:
+                    code = _compile(src)
+                    compile(code, 'gen', 'exec')
+                except Exception as e:
+                    cache[key] = (src, None, '%s: %s' % (type(e).__name__, e))
+                else:
+                    cache[key] = (src, code, None)
+            src, code, err = cache[key]
+        if code is None:
+            ch.note(info, 'compiler failed on %r: %s', src, err)
+            return ch.VIOLATED
+        anon = [0]
+
+        def ref(i):
+            if HEAD_REF[i] is None:
+                anon[0] += 1
+                return V('_anon%d' % anon[0])
+            return HEAD_REF[i]
+        clauses = [(F('r', ref(i0), ref(i1)), BODY_REF[ib]), (F('r', V('A'), V('B')), conj(call('d', V('A')), eq(V('B'), V('A'))))]
+        yp = ch.new_engine()
+        ch.load(yp, code)
+        interp = Interp(clauses, max_steps=400)
+        for i in range(2):
+            if i < g('nd'):
+                yp.assert_fact(yp.atom('d'), [g('d%d' % i)])
+                interp.assert_fact('d', (('c', g('d%d' % i)),), {})
+        qb = QueryBuilder(yp, interp)
+        a0, r0 = qb.any(g('m0'), g('a0'))
+        a1, r1 = qb.any(g('m1'), g('a1'))
+        try:
+            exp = ref_answers(interp, 'r', [r0, r1], 10)
+        except (Cyclic, StepLimit, RecursionError):
+            return ch.HOLDS_TRIVIAL
+        try:
+            got = real_answers(yp, 'r', [a0, a1], 10)
+        except Exception as e:
+            ch.note(info, 'query on %r raised %s: %s', src, type(e).__name__, str(e)[:120])
+            return ch.VIOLATED
+        if got != exp:
+            ch.note(info, 'program %r: answers %r differ from SLD reference %r', src, got, exp)
+            return ch.VIOLATED
+        return ch.HOLDS_NONTRIVIAL if exp else ch.HOLDS_TRIVIAL
+    extra = ['m0 <= 2', 'm1 <= 2'] if quick else []
+    return spec, body, extra
+
+
 def units(tier, seed):
     nf = 2 if tier == 'quick' else 3
     us = []
+    for p0 in range(len(HEAD_PATTERNS)):
+        bodies = [None] if tier == 'quick' else list(range(len(BODY_TEXT)))
+        for b in bodies:
+            fx = {'p0': p0} if b is None else {'p0': p0, 'b': b}
+            us.append(dict(id='b.heads.p0=%s%s' % (HEAD_PATTERNS[p0], '' if b is None else '.body%d' % b), kind='b', fixed=fx, quick=(tier == 'quick'),
+                           ob='C01.b', timeout=400 if tier == 'quick' else 1500, weight=150,
+                           bounds='r(%s, P1) :- BODY.  P1 from %d patterns, BODY from %d bodies; second clause catch-all; <=2 symbolic facts; query modes %s'
+                                  % (HEAD_PATTERNS[p0], len(HEAD_PATTERNS), len(BODY_TEXT), '0..2' if tier == 'quick' else '0..5')))
     for sk in skeletons(nf):
         anyk = [k for k, kind in enumerate(sk['query'][1]) if kind == 'any']
         # modes stay symbolic inside a unit; thorough partitions on the first argument's mode
         parts = [{}]
-        if anyk and tier != 'quick':
-            parts = [{'m%d' % anyk[0]: m} for m in range(NMODES)]
+        if anyk and (tier != 'quick' or sk['name'] == 'path'):
+            parts = [{'m%d' % anyk[0]: m} for m in range(NMODES if tier != 'quick' else 3)]
         for fx in parts:
             tag = ''.join('%s%d' % kv for kv in sorted(fx.items()))
             us.append(dict(id='a.%s.%s' % (sk['name'], tag or 'all'), skeleton=sk['name'], nf=nf, fixed=fx, ob='C01.a',
@@ -87,5 +179,11 @@ def units(tier, seed):
 
 
 def build(u):
+    if u.get('kind') == 'b':
+        info = {}
+        spec, body, extra = make_body_b(u.get('quick', False), info)
+        if u.get('quick'):
+            extra = extra + ['p1 <= 3', 'b != 3', 'b != 2']
+        return ch.harness_from_spec(u['id'], spec, u['fixed'], body, extra_pre=extra, info=info)
     sk = [s for s in skeletons(u['nf']) if s['name'] == u['skeleton']][0]
     return build_sld_unit(u, sk)
